@@ -83,8 +83,14 @@ def prepare(ctx, text, with_comments=False):
     if s.tree is None:
         ctx.count('skipped:impl_rejects')
         return None
-    if work.uncertain(s.ref, s.ref_err) or work.skip_known(ctx, text, s.ref):
+    if work.skip_known(ctx, text, s.ref):
         return None
+    # where the reference model is not authoritative (Annex B octals, escaped reserved words ...) the
+    # statements about "the parser itself" still apply to a text it accepted; only the "any conforming
+    # parser" clause is dropped
+    unsure = work.uncertain(s.ref, s.ref_err)
+    if unsure:
+        ctx.count('oracle_uncertain:self_consistency_only')
     p = Prepared()
     p.text = text
     p.side = s
@@ -92,7 +98,7 @@ def prepare(ctx, text, with_comments=False):
     p.ci = s.ci
     # "any conforming ES5 parser" applies only to inputs refjs itself accepts
     # with the same tree; otherwise self-consistency only (input_not_es5)
-    p.es5 = s.ref is not None and s.cr == s.ci
+    p.es5 = (not unsure) and s.ref is not None and s.cr == s.ci
     if not p.es5:
         ctx.count('input_not_es5')
     p.ntok = len(s.ref.tokens) if s.ref is not None else len(text.split())
